@@ -321,37 +321,42 @@ ENTRIES = {
 
 # Sentences appended to level_claimed.text after the checks were widened (seeded-change rounds, DESIGN 11.4)
 ADDENDA = {
-    "C01": "The converse direction also runs every bracket type alone and every ordered pair of types (nested and crossing).",
+    "C01": "The converse direction also runs every bracket type alone and every ordered pair of types (nested and crossing). Multi-strand texts use higher bracket types and strands that begin with a closing bracket.",
     "C02": "Gen_StemFamily adds the stem-level family: every chord diagram of <= 4 (thorough 5) stems x a stem-length palette, and "
-           "stars in which one stem is crossed by 10-16 others (optimality by brute force where feasible, stability always).",
+           "stars in which one stem is crossed by 10-16 others (optimality by brute force where feasible, stability always). MC_SecStruct proves lemma L7 (no swap of two levels of a component improves a MILP-optimal assignment) and the trace clause NoSwapImproves applies it to every recorded assignment, including 30-32 stem stars.",
     "C03": "Structure variants also include base-only residues, residues that differ only by insertion code, residues listed in two "
-           "blocks, and threshold probes at three scales (delta, delta/6, delta/60).",
+           "blocks, and threshold probes at three scales (delta, delta/6, delta/60). Zero-occupancy base atoms, chains with longer names, and the DNA structure 6RS3 are among the quick inputs.",
     "C04": "Same widened variants and three-scale probes as C03.",
     "C05": "Presentation.tla also has InsertCodes (order-preserving renumbering that introduces insertion codes); some bases carry "
-           "unresolvable residue names so that base letters are detected from atoms; quick draws 140 behaviours.",
-    "C06": "Corpus variants with abasic nucleotides (base letter '?') are included.",
+           "unresolvable residue names so that base letters are detected from atoms; quick draws 140 behaviours. Every behaviour is extended by the format switches enabled at its end; a base with legacy atom names is included; presentations PDB cannot carry are marked undeliverable by the spec.",
+    "C06": "Corpus variants with abasic nucleotides (base letter '?') are included. Every seventh case is a list merged from two sources (entries alternate between label+auth and auth-only naming).",
     "C07": "The motif_extractor CLI is run plain and with --remove-isolated / --remove-pseudoknots in every combination; "
            "Trace_Elements derives the structure the tool must print and decompose.",
-    "C08": "Every third PDB rendering numbers its records from just below 10000 (five-digit serials).",
+    "C08": "Every third PDB rendering numbers its records from just below 10000 (five-digit serials). Three alternate locations with non-monotone occupancies, and model numbers that do not ascend in file order, are generated.",
     "C09": "Tables also use a blank chain identifier (PDB -> PDB paths, modelled in MC_PdbText with a negative control for the repaired "
            "TER column defect), model numbering from 0 and serials that end exactly at the limit (always through the splitter).",
     "C10": "Also: a 99 984-atom table with interleaved chains (serials run out during renumbering), row selections made after parsing, "
            "label_* names differing from the author names, and two-model files of which only one model exceeds the limits "
-           "(one trace case per model through splitter.main).",
+           "(one trace case per model through splitter.main). Residues distinguished only by insertion codes at the 9999/10000 boundary are included; read-back of occupancy/B tolerates the 0.01 of the PDB columns.",
     "C11": "Synthetic placements include three donors of one base in contact with one phosphate; the C03 variants (insertion codes, "
            "split residues, base-only residues) apply.",
     "C12": "A tenth operation, convert_to_dot_bracket(None), is part of the specification and of every history family; every second "
            "history runs after an unrelated sibling object (same pairs, other sequence and length) was solved in the same process; "
-           "structures with 5 and 6 mutually crossing stems are included.",
+           "structures with 5 and 6 mutually crossing stems are included. Sequences carry letters beyond ACGU.",
+    "C13": "Structures include one with 13 regions (two-digit indices in the MILP's constraint names) and sequences with letters "
+           "beyond ACGU.",
     "C14": "Emission points v2_fit / v2_fit_write_pdb (the PDB text of a table that had to be fitted) are observed; alternate seeds meet "
-           "their inputs in the opposite order and twin inputs (same component names, complete / without bases) share an interpreter.",
+           "their inputs in the opposite order and twin inputs (same component names, complete / without bases) share an interpreter. 4-thiouridines (base letter rests on a tie-break) are among the twin inputs.",
+    "C15": "Consecutive residues exactly 2.4 A apart must be answered alike by all four readings (BoundaryAgree); tables with repeated "
+           "atom records form a second domain (DupDomain) judged for agreement only (DupFailing).",
     "C16": "For corpus structures the list rendered by Mapping2D3D.all_dot_brackets and the BpSeq's own list asked afterwards are "
            "validated too.",
     "C17": "CLI results are judged on an independent reading of the input file; generated mmCIF carries entity tables and nucleotide "
-           "ligands in a non-polymer entity; the pair family has a distance class zero (coincident atoms) and residues N / N^A.",
+           "ligands in a non-polymer entity; the pair family has a distance class zero (coincident atoms) and residues N / N^A. Occupancy splits that are inexact in binary and symmetry mates that print alike in the CSV (trace kind csvcount) are included.",
     "C18": "Trace kind 'stem' binds the inter-stem torsion of Mapping2D3D.calculate_inter_stem_parameters (closest endpoints, IUPAC "
            "dihedral of the documented centroids, swapping the stems keeps the value); clauses SameAtomsBothPaths, "
-           "ChiOnlyFromGlycosidicAtoms and TableRowPerResidue; quick corpus includes 1ehz, 4qln.pdb, 2HY9 and atom-drop variants.",
+           "ChiOnlyFromGlycosidicAtoms and TableRowPerResidue; quick corpus includes 1ehz, 4qln.pdb, 2HY9 and atom-drop variants. Corpus variants also rename residues to N and give residues a shared number with insertion codes.",
+    "C19": "Generated listings repeat lines and add coinciding lines (same residues, other label).",
     "C20": "The CLI is also run in place (output path = input path; MC_CifEdit models it, variant CliOpensOutputFirst is a negative "
-           "control); documents with several data blocks and mixed-case data names are generated.",
+           "control); documents with several data blocks and mixed-case data names are generated. Alphabets that look like ranges are among the --values pools.",
 }
